@@ -9,7 +9,7 @@ PY = '/venv/bin/python'
 CHECKS = {
     'C01': dict(
         technique='explicit-state BFS over real SimulatedBroker histories vs exact Fraction ledger',
-        text='Explicit-state BFS over every history of account/portfolio transfers (incl. sub-cent amounts and the quoted rounded balance), portfolio creation, order submission, clock updates and quote changes up to the stated depth, from four initial states (empty, funded, long, short with negative cash) under several fee models (zero, percentage, sub-half-cent commissions) and base currencies (USD, GBP, EUR), executed on the real broker with every intermediate state read back; after every transition master/portfolio cash, the balances of the other currencies, account totals, the event history (cents rule), history_to_df and global conservation are compared with an exact Fraction ledger. Plus every cycle of <= 2 events repeated 40-400 times (count-dependent behaviour). Plus ledgers of more than 10 000 (thorough: 25 000) entries with amounts that are not whole cents. Orders reusing a user-chosen id are part of the alphabet; accounts with 5-40 portfolios are checked.',
+        text='Explicit-state BFS over every history of account/portfolio transfers (incl. sub-cent amounts and the quoted rounded balance), portfolio creation, order submission, clock updates and quote changes up to the stated depth, from four initial states (empty, funded, long, short with negative cash) under several fee models (zero, percentage, sub-half-cent commissions) and base currencies (USD, GBP, EUR), executed on the real broker with every intermediate state read back; after every transition master/portfolio cash, the balances of the other currencies, account totals, the event history (cents rule), history_to_df and global conservation are compared with an exact Fraction ledger. Plus every cycle of <= 2 events repeated 40-400 times (count-dependent behaviour). Plus ledgers of more than 10 000 (thorough: 25 000) entries with amounts that are not whole cents. Orders reusing a user-chosen id are part of the alphabet; accounts with 5-40 portfolios are checked. The cent-rounded (quoted) cash of a portfolio withdrawn back to the master is an event too.',
         note='Trusted: the harness ledger (Fractions), the stub data handler, the recorder wrapped around Portfolio.transact_asset. Values outside the alphabet are not covered.',
         design='5/C01'),
     'C02': dict(
@@ -39,7 +39,7 @@ CHECKS = {
         design='5/C03'),
     'C10': dict(
         technique='exhaustive input-grid enumeration of the real long-only sizer vs exact budget inequalities',
-        text='Full product equity x buffer x fee rate x weight vectors (1-3 assets; unnormalised, sparse, all-zero, near-unity sums, ints and floats) x price vectors (incl. sub-cent digits) on ONE sizer object per group - all weight vectors, then changed quotes at the same timestamp, an asset subset, withdrawn funds: q is a non-negative int with q*p+fee <= allocation < (q+1)*p+fee; refusal grids for negative weights, buffers outside [0,1], NaN prices, also through the QuantTradingSystem / BacktestTradingSession wiring. Plus re-assignment of the buffer on the live sizer and weight vectors of 8-40 assets. Plus an invested phase (the target traded through the broker, then sized again) and one weights dict edited in place.',
+        text='Full product equity x buffer x fee rate x weight vectors (1-3 assets; unnormalised, sparse, all-zero, near-unity sums, ints and floats) x price vectors (incl. sub-cent digits) on ONE sizer object per group - all weight vectors, then changed quotes at the same timestamp, an asset subset, withdrawn funds: q is a non-negative int with q*p+fee <= allocation < (q+1)*p+fee; refusal grids for negative weights, buffers outside [0,1], NaN prices, also through the QuantTradingSystem / BacktestTradingSession wiring. Plus re-assignment of the buffer on the live sizer and weight vectors of 8-40 assets. Plus an invested phase (the target traded through the broker, then sized again) and one weights dict edited in place. Every weight vector is also presented in a dict keyed in reverse symbol order.',
         note='Trusted: Fraction arithmetic of the reference; results within 1e-9 of a floor boundary accept both neighbours.',
         design='5/C10'),
     'C11': dict(
@@ -49,7 +49,7 @@ CHECKS = {
         design='5/C11'),
     'C12': dict(
         technique='exhaustive calendar enumeration of the real simulation engine vs independent date arithmetic',
-        text='Every start date of the window (quick: 447 consecutive days + a window across 1969/70; thorough: the 28-year cycle, Feb 1900/2100) x range lengths x start/end times x all four pre/post flags, plus ranges of 1-3 years from month starts of 2014-2021: the emitted stream is compared event by event with a datetime.date reference; engines are iterated again after a full and after an abandoned pass; end < start must raise. The calendars are enumerated again in child processes whose local time zone (TZ) is Tokyo / New York / London / Kiritimati, and on windows around and after the day of the run and in 2090. Ordered sequences of 3-4 clocks over overlapping and disjoint ranges are run in one process each.',
+        text='Every start date of the window (quick: 447 consecutive days + a window across 1969/70; thorough: the 28-year cycle, Feb 1900/2100) x range lengths x start/end times x all four pre/post flags, plus ranges of 1-3 years from month starts of 2014-2021: the emitted stream is compared event by event with a datetime.date reference; engines are iterated again after a full and after an abandoned pass; end < start must raise. The calendars are enumerated again in child processes whose local time zone (TZ) is Tokyo / New York / London / Kiritimati, and on windows around and after the day of the run and in 2090. Ordered sequences of 3-4 clocks over overlapping and disjoint ranges are run in one process each. Start times include 09:15:30 and 00:00:00.25 (seconds and sub-seconds must not reach the events).',
         note='Trusted: datetime.date weekday arithmetic. End time of day never before the start time of day (quantifier).',
         design='5/C12'),
     'C13': dict(
@@ -59,7 +59,7 @@ CHECKS = {
         design='5/C13'),
     'C06': dict(
         technique='exhaustive dataset x query enumeration on the real CSV data source vs list-based point-in-time lookup + truncation differential',
-        text='Every CSV dataset over a 5-day window with weekend/leap-day gaps (row subsets x missing-cell patterns x row orders x adjusted/unadjusted) and files whose rows lie decades apart (1950-2099), loaded by the real CSVDailyBarDataSource; every query instant around every row (12 times of day incl. both boundaries, one second and fractions of a second either side) is compared with a reference lookup and the handler views (one and two sources), asked in ascending, descending and zig-zag order and in other time zones on fresh source objects, and - without any expected value - with the same query on the file truncated to rows dated <= t. Plus assets of one source whose files differ only in the days in between, asked alternately, and files of hundreds of rows.',
+        text='Every CSV dataset over a 5-day window with weekend/leap-day gaps (row subsets x missing-cell patterns x row orders x adjusted/unadjusted) and files whose rows lie decades apart (1950-2099), loaded by the real CSVDailyBarDataSource; every query instant around every row (12 times of day incl. both boundaries, one second and fractions of a second either side) is compared with a reference lookup and the handler views (one and two sources), asked in ascending, descending and zig-zag order and in other time zones on fresh source objects, and - without any expected value - with the same query on the file truncated to rows dated <= t. Plus assets of one source whose files differ only in the days in between, asked alternately, and files of hundreds of rows. Plus EVERY sequence of three questions (asset, instant) over two assets x six days put to one freshly loaded source (quick 3 456 sequences; thorough 55 296): no answer may depend on what was asked before.',
         note='Trusted: the reference lookup (python lists). Lone-missing Close with Adj Close present is excluded (undefined).',
         design='5/C06'),
     'C17': dict(
@@ -69,7 +69,7 @@ CHECKS = {
         design='5/C17'),
     'C08': dict(
         technique='exhaustive configuration/schedule enumeration of complete real sessions vs independent reference simulator',
-        text='Full Cartesian product of weight vectors (1-3 assets, long-only and signed, incl. weights needing six decimals), price-path shapes, 8 schedules, 7 start alignments, fees and cash levels (incl. one where targets toggle between 0 and 1 share and a 50 M account), 70-day and 13-month sessions, sessions with event printing on, an idle second portfolio, and an unrelated market traded earlier in the process: each complete BacktestTradingSession is compared fill by fill, cash, holdings and equity point by point with refmodel.Backtest (Fractions, written from the documented rules). Markets in which one symbol is held by two data sources, the first-listed starting inside the session, are included; same-instant fills are compared as a set with the sells-first rule. Markets with exchange holidays are included.',
+        text='Full Cartesian product of weight vectors (1-3 assets, long-only and signed, incl. weights needing six decimals), price-path shapes, 8 schedules, 7 start alignments, fees and cash levels (incl. one where targets toggle between 0 and 1 share and a 50 M account), 70-day and 13-month sessions, sessions with event printing on, an idle second portfolio, and an unrelated market traded earlier in the process: each complete BacktestTradingSession is compared fill by fill, cash, holdings and equity point by point with refmodel.Backtest (Fractions, written from the documented rules). Markets in which one symbol is held by two data sources, the first-listed starting inside the session, are included; same-instant fills are compared as a set with the sells-first rule. Markets with exchange holidays are included. Long-only sessions run with the 5 % buffer and with an explicit zero buffer.',
         note='Trusted: the reference simulator. Sessions where the rule hits an exact floor/rounding boundary are skipped and counted.',
         design='5/C08'),
     'C14': dict(
@@ -79,7 +79,7 @@ CHECKS = {
         design='5/C14'),
     'C16': dict(
         technique='explicit-state BFS to fixpoint over price streams on the real signals + exhaustive session cadence enumeration',
-        text="Part 1: for each signal class and lookback subset the search over append(asset, price) streams closes (state = true trailing window U actual deque contents) - assets known at creation, late assets, and an asset whose name extends another one's. Part 2: complete sessions with a real SignalsCollection (two lookbacks) over start alignments, lengths, every universe-entry variant of a second asset in both mapping orders, and a handler that was given a universe: every signal value (lookbacks 1, 2, 12, every member) is read through __call__ at every daily rebalance by a recording alpha model and compared with the definition over exactly the closes since entry. Cadence sessions also run with a burn-in well after the start. Sessions on a universe object that already served a session; 40 assets on one signal object.",
+        text="Part 1: for each signal class and lookback subset the search over append(asset, price) streams closes (state = true trailing window U actual deque contents) - assets known at creation, late assets, and an asset whose name extends another one's. Part 2: complete sessions with a real SignalsCollection (two lookbacks) over start alignments, lengths, every universe-entry variant of a second asset in both mapping orders, and a handler that was given a universe: every signal value (lookbacks 1, 2, 12, every member) is read through __call__ at every daily rebalance by a recording alpha model and compared with the definition over exactly the closes since entry. Cadence sessions also run with a burn-in well after the start. Sessions on a universe object that already served a session; 40 assets on one signal object. Two assets joining the universe at the same instant keep separate windows.",
         note='Trusted: list-based definitions. Buffer contents (AssetPriceBuffers.prices) only refine the canonical key of part 1 when present; no verdict depends on how observations are stored.',
         design='5/C16'),
     'C19': dict(
@@ -89,7 +89,7 @@ CHECKS = {
         design='5/C19'),
     'C07': dict(
         technique='exhaustive (configuration x cut day x future rewrite) enumeration of pairs of complete real sessions, bit-for-bit prefix comparison',
-        text='For every market (late-starting asset, missing cells, gaps with equal row counts, blank leading cells, zero-volume bars, a second data source) and every configuration of alpha {fixed, single-signal, momentum top-1, SMA trend, inverse vol via real signals} x universe x 5 rebalance kinds x sizing x fee x burn-in, the real session is run on the full data and on every rewritten world (every cut day incl. weekends x future rows removed / scaled / blanked / constant / reversed), each world in its own directory and on its own source objects; everything dated <= T must be bit-identical. A market with an exchange holiday on the business month end is part of the list. Pairs of sessions on one shared handler (the first starting later) are compared across worlds too.',
+        text='For every market (late-starting asset, missing cells, gaps with equal row counts, blank leading cells, zero-volume bars, a second data source) and every configuration of alpha {fixed, single-signal, momentum top-1, SMA trend, inverse vol via real signals} x universe x 5 rebalance kinds x sizing x fee x burn-in, the real session is run on the full data and on every rewritten world (every cut day incl. weekends x future rows removed / scaled / blanked / constant / reversed), each world in its own directory and on its own source objects; everything dated <= T must be bit-identical. A market with an exchange holiday on the business month end is part of the list. Pairs of sessions on one shared handler (the first starting later) are compared across worlds too. A market whose Adj Close / Close ratio changes from row to row and is not 1 on the last row is included.',
         note='Differential oracle, no expected values; comparison only between two runs of the same code in one interpreter. Quick thins the configuration product to one third (every value of every dimension kept); thorough is the full product.',
         design='5/C07'),
     'C09': dict(
